@@ -280,6 +280,12 @@ def b_histogram_tagger(tier):
                    bound="20 pool expressions + 190 pairs x 3 environments", functions=["CSEWalkMapper.visit", "CSETagMapper.map_*"])
     pl = [e for e in pool() if not any(isinstance(n, p.CommonSubexpression) and n.prefix for n in _nodes(e))]
     exprs = list(pl) + [p.Sum((u, v)) for u, v in itertools.combinations(pl, 2)][: (190 if tier == "thorough" else 60)]
+    # repeated subexpressions that contain repeated subexpressions
+    x_, y_, z_ = p.Variable("x"), p.Variable("y"), p.Variable("z")
+    s_ = p.Sum((x_, y_))
+    a_, b_ = p.Product((s_, s_, z_)), p.Product((s_, z_))
+    exprs += [p.Sum((a_, p.Sum((a_, b_)))), p.Sum((a_, a_)), p.Product((p.Power(a_, 2), a_, s_)), p.Sum((p.Quotient(a_, b_), p.Quotient(a_, b_), b_)),
+              p.Sum((p.Call(p.Variable("f"), (s_, b_)), p.Call(p.Variable("f"), (s_, b_)), s_))]
     envs = [{"x": vx, "y": vy, "z": 3, "f": lambda a, c: a * 7 + c} for vx, vy in [(2, 5), (-1, 4), (Fraction(1, 2), 3)]]
     for e in exprs:
         w = CSEWalkMapper()
